@@ -154,6 +154,12 @@ class AbstractWorker:
                     # We only set the is_apply_func flag when we are not running the init/exit functions
                     self.is_apply_func = is_apply_func
 
+                    # When workers are kept alive, an ordered map call can be followed by an unordered one (or the other
+                    # way around) with otherwise identical parameters. The helper function has to match the order mode
+                    # of the call these tasks belong to
+                    if not is_apply_func:
+                        func = self._get_func(self.map_params.func)
+
                     results = []
                     for args in next_chunked_args:
 
